@@ -237,6 +237,9 @@ def run(ctx):
         if e is not None:
             V.report_known(ctx, e)
             continue
+        n_rej = locals().get("n_rej", 0) + 1
+        if n_rej > 8:
+            continue
         V.violation(ctx, "%s: %s" % (f["broken"], json.dumps(f["key"])[:220]),
                     {"broken": "crit_accepted / accepted_only on the real code: a result returned on the guessed path does not pass the acceptance test "
                                "of the guess-free path", "failing": f}, found_input=True)
